@@ -4,6 +4,7 @@ import (
 	"fmt"
 	"go/constant"
 	"go/token"
+	"go/types"
 	"sort"
 	"strings"
 
@@ -30,6 +31,7 @@ func checkC15(r *core.Run) {
 	}
 	c15Tables(r, p)
 	c15Guards(r, p)
+	c15Bytewise(r, p)
 	c15Sym(r, p)
 }
 
@@ -537,4 +539,47 @@ func c15Sym(r *core.Run, p *core.Program) {
 		}
 		r.Check(bad == "", rule, "templates/op-n", p.Pos(dn.Pos()), "OP_0 -> 0, OP_1..OP_16 -> 1..16", bad)
 	}
+}
+
+// c15Bytewise: the decoders look characters up byte by byte. Ranging over a string by value yields
+// runes; converting a rune to a byte keeps the low 8 bits, so a multi-byte character whose code point
+// is a valid letter modulo 256 would be read as that letter (and the checksum would still match). No
+// value produced by string iteration may be narrowed to a byte in the address code.
+func c15Bytewise(r *core.Run, p *core.Program) {
+	const rule = "R-C15-guards"
+	nf, nconv := 0, 0
+	var bad []string
+	for _, f := range p.ModuleFuncs() {
+		pk := core.FuncPkg(f)
+		if pk == nil {
+			continue
+		}
+		file := p.Fset.Position(f.Pos()).Filename
+		if !(strings.HasSuffix(pk.Path(), "lib/others/bech32") || (strings.HasSuffix(pk.Path(), "lib/btc") && (strings.HasSuffix(file, "/addr.go") || strings.HasSuffix(file, "/wallet.go")))) {
+			continue
+		}
+		nf++
+		an.Instrs(f, func(i ssa.Instruction) {
+			cv, ok := i.(*ssa.Convert)
+			if !ok {
+				return
+			}
+			from, okF := cv.X.Type().Underlying().(*types.Basic)
+			to, okT := cv.Type().Underlying().(*types.Basic)
+			if !okF || !okT || from.Kind() != types.Int32 || (to.Kind() != types.Uint8 && to.Kind() != types.Int8) {
+				return
+			}
+			nconv++
+			for _, leaf := range an.PhiLeaves(cv.X) {
+				if ex, ok := leaf.(*ssa.Extract); ok {
+					if nx, ok := ex.Tuple.(*ssa.Next); ok && nx.IsString {
+						bad = append(bad, fmt.Sprintf("%s narrows a character obtained by ranging over a string to a byte at %s", core.FuncName(f), p.Pos(cv.Pos())))
+					}
+				}
+			}
+		})
+	}
+	_ = nconv
+	sort.Strings(bad)
+	r.Check(len(bad) == 0 && nf >= 10, rule, "characters-are-bytes", "-", fmt.Sprintf("%d functions of the address code, no rune narrowed to a byte", nf), strings.Join(bad, "; "))
 }
